@@ -3,7 +3,7 @@ import ast
 import re
 
 from .. import regexast as RX
-from ..consteval import Folder, TOP
+from ..consteval import TOP
 from ..report import AnalysisError
 from ..srcmodel import unparse
 
@@ -11,6 +11,47 @@ REF_CSI = r"(?:\x1b\[|\x9b)(?:[0-9]+(?:;[0-9]+)*)?[ -/]*[@-~]"      # ordinary n
 REF_SGR_WRITER = r"\x1b\[[0-9]+m"                                  # what curtsies' own writer emits
 REF_STARTS_WITH_INTRODUCER = r"[\x1b\x9b].*"
 REF_TWO_BYTE = r"\x1b[@-_]"
+
+
+def regex_uses(src, fold, f, methods=("search", "match", "fullmatch")):
+    """[{pattern, flags, node, method, args (after the pattern), where}] for re.<method>(pattern, ...) calls and for
+    <compiled>.<method>(...) calls where <compiled> is a name bound (module level or locally) by re.compile(...)."""
+    out = []
+    mod = f.module
+    env = dict(fold.module(mod.name))
+    for n in f.all_nodes():
+        if not isinstance(n, ast.Call) or not isinstance(n.func, ast.Attribute) or n.func.attr not in methods:
+            continue
+        meth = n.func.attr
+        c = src.canon(n.func, mod)
+        if c and c.startswith("re."):
+            pat = fold_local(fold, f, n.args[0]) if n.args else TOP
+            flag_pos = {"search": 2, "match": 2, "fullmatch": 2, "finditer": 2, "findall": 2, "sub": 4, "subn": 4, "split": 3}.get(meth, 2)
+            flags = RX.flags_from_ast(src, mod, list(n.args[flag_pos:flag_pos + 1]) + [k.value for k in n.keywords if k.arg == "flags"])
+            out.append({"pattern": pat, "flags": flags, "node": n, "method": meth, "args": list(n.args[1:]), "keywords": n.keywords,
+                        "compiled": False, "where": f.where(n)})
+            continue
+        if isinstance(n.func.value, ast.Name):
+            comp = None
+            nm = n.func.value.id
+            for st in mod.tree.body:
+                if isinstance(st, (ast.Assign, ast.AnnAssign)) and isinstance(getattr(st, "value", None), ast.Call):
+                    tg = st.targets if isinstance(st, ast.Assign) else [st.target]
+                    if any(isinstance(t, ast.Name) and t.id == nm for t in tg) and (src.canon(st.value.func, mod) or "") == "re.compile":
+                        comp = st.value
+            from ..cfg import single_defs
+            d = single_defs(f.node).get(nm)
+            if comp is None and isinstance(d, ast.Call) and (src.canon(d.func, mod) or "") == "re.compile":
+                comp = d
+            if comp is not None:
+                pat = fold_local(fold, f, comp.args[0]) if comp.args else TOP
+                if pat is TOP:
+                    pat = fold.try_expr(comp.args[0], env) if comp.args else TOP
+                flags = RX.flags_from_ast(src, mod, list(comp.args[1:]) + [k.value for k in comp.keywords if k.arg == "flags"])
+                out.append({"pattern": pat, "flags": flags, "node": n, "method": meth, "args": list(n.args), "keywords": n.keywords,
+                            "compiled": True, "where": "%s (pattern compiled at %s)" % (f.where(n), mod.where(comp))})
+    out.sort(key=lambda u: (u["node"].lineno, u["node"].col_offset))
+    return out
 
 
 def _regex_calls(src, f, names=("match", "search", "sub", "finditer", "fullmatch", "compile")):
@@ -42,21 +83,20 @@ class TokenizerModel:
     def __init__(self, src, fold):
         self.src, self.fold = src, fold
         self.f = src.func("escseqparse", "peel_off_esc_code")
-        calls = [(k, c) for k, c in _regex_calls(src, self.f) if k in ("match", "search", "fullmatch")]
-        self.calls = calls
         self.patterns = []
-        for kind, c in calls:
-            pat = fold_local(fold, self.f, c.args[0]) if c.args else TOP
-            if not isinstance(pat, str):
-                raise AnalysisError("peel_off_esc_code: pattern of `%s` is not a compile-time constant" % unparse(c)[:60])
-            flag_nodes = list(c.args[2:]) + [k.value for k in c.keywords if k.arg == "flags"]
-            flags = RX.flags_from_ast(src, self.f.module, flag_nodes)
+        for u in regex_uses(src, fold, self.f):
+            if not isinstance(u["pattern"], str):
+                raise AnalysisError("peel_off_esc_code: pattern of `%s` is not a compile-time constant" % unparse(u["node"])[:60])
+            c = u["node"]
             target = None
             p = self.f.module.parent.get(c)
             if isinstance(p, ast.Assign) and isinstance(p.targets[0], ast.Name):
                 target = p.targets[0].id
-            self.patterns.append({"kind": kind, "call": c, "pattern": pat, "flags": flags, "rx": RX.Regex(pat, flags),
-                                  "var": target, "subject": unparse(c.args[1]) if len(c.args) > 1 else None})
+            subj = u["args"][0] if u["args"] else None
+            self.patterns.append({"kind": u["method"], "call": c, "pattern": u["pattern"], "flags": u["flags"],
+                                  "rx": RX.Regex(u["pattern"], u["flags"]), "var": target,
+                                  "subject": unparse(subj) if subj is not None else None, "where": u["where"]})
+        self.calls = [(p["kind"], p["call"]) for p in self.patterns]
 
     def csi(self):
         for p in self.patterns:
@@ -131,135 +171,92 @@ def rules_tokenizer(src, rep, fold, prefix, counts):
         w = RX.language_subset(ref, ref.tree, csi["rx"], num)
         rep.ob(prefix + "-numbers-group-language", f.where(csi["call"]), f.scope, "L(n(;n)*) within L(numbers group)", w is None,
                "parameter string %r is not accepted by the numbers group" % w, witness={"numbers": w})
-    # tie-break between the two matches
-    sel = [n for n in f.own_nodes() if isinstance(n, ast.IfExp) and isinstance(n.test, ast.Compare)]
-    v1, v2 = csi["var"], two["var"]
-    ok = False
-    desc = "<no selection expression found>"
-    for s in sel:
-        t = s.test
-        if len(t.ops) != 1:
-            continue
-        l, r = unparse(t.left), unparse(t.comparators[0])
-        body, orelse = unparse(s.body), unparse(s.orelse)
-        desc = unparse(s)
-        lf = v1 in l and "front" in l and v2 not in l
-        rf = v2 in r and "front" in r and v1 not in r
-        lf2 = v2 in l and "front" in l and v1 not in l
-        rf2 = v1 in r and "front" in r and v2 not in r
-        op = t.ops[0]
-        if lf and rf:      # front1 OP front2
-            if isinstance(op, ast.LtE) and body == v1 and orelse == v2:
-                ok = True
-            if isinstance(op, ast.Gt) and body == v2 and orelse == v1:
-                ok = True
-        if lf2 and rf2:    # front2 OP front1
-            if isinstance(op, ast.Lt) and body == v2 and orelse == v1:
-                ok = True
-            if isinstance(op, ast.GtE) and body == v1 and orelse == v2:
-                ok = True
-    # is a tie possible?  '[' in the two-byte command class means both match at the same position for every CSI
-    cmd2 = two["rx"].group("command")
-    tie_possible = True
-    if cmd2 is not None:
-        ref = RX.Regex(r"\[", 0)
-        tie_possible = RX.language_subset(ref, ref.tree, two["rx"], cmd2) is None
-    rep.ob(prefix + "-csi-wins-ties", f.where(sel[0]) if sel else f.where(), f.scope, desc, ok or not tie_possible,
-           "both patterns match at the same position for every ESC[ sequence ('[' is a two-byte final); the CSI match must be "
-           "chosen on equal front length, otherwise ESC[31m is cut after ESC[ and `31m` stays in the text")
-    # both-match / single-match selection covers all four cases
-    # results: (front, token, rest) from the chosen match; (s, None, "") when neither matches
-    rets = [n for n in f.own_nodes() if isinstance(n, ast.Return)]
-    shapes = []
-    for r in rets:
-        if isinstance(r.value, ast.Tuple) and len(r.value.elts) == 3:
-            shapes.append(tuple(unparse(e) for e in r.value.elts))
-    p0 = f.params()[0]
-    nomatch = [s for s in shapes if s[0] == p0 and s[1] == "None" and s[2] in ("''", '""')]
-    rep.ob(prefix + "-no-match-returns-input", f.where(), f.scope, "return %s, None, ''" % p0, len(nomatch) == 1,
-           "when no escape sequence is found the whole input must come back as text with nothing left to process")
-    matched = [s for s in shapes if "front" in s[0] and "rest" in s[2]]
-    rep.ob(prefix + "-match-returns-front-token-rest", f.where(), f.scope, "return m['front'], token, m['rest']", len(matched) == 1,
-           "on a match the function must return the front text, the token and the rest")
-    # groupdict keys used without guard must exist in BOTH patterns
-    both = set(csi["rx"].groupindex) & set(two["rx"].groupindex)
-    for n in f.own_nodes():
-        if isinstance(n, ast.Subscript) and isinstance(n.slice, ast.Constant) and isinstance(n.slice.value, str) and \
-                isinstance(n.ctx, ast.Load):
-            key = n.slice.value
-            if key in both or key not in (set(csi["rx"].groupindex) | set(two["rx"].groupindex)):
-                continue
-            from ..cfg import lexical_guard
-            g = lexical_guard(f.module, n, f.node)
-            base = unparse(n.value)
-            guarded = any(pol and t.replace('"', "'") == "'%s' in %s" % (key, base) for t, pol in g)
-            # `A and B` in the same test: the subscript sits in a later conjunct of a BoolOp whose earlier conjunct is the guard
-            bo = f.module.enclosing(n, (ast.BoolOp,))
-            while bo is not None and not guarded:
-                if isinstance(bo.op, ast.And):
-                    for v in bo.values:
-                        if any(x is n for x in ast.walk(v)):
-                            break
-                        if unparse(v).replace('"', "'") == "'%s' in %s" % (key, base):
-                            guarded = True
-                bo = f.module.enclosing(bo, (ast.BoolOp,))
-            rep.ob(prefix + "-group-access-guarded", f.where(n), f.scope, unparse(n), guarded,
-                   "group %r exists only in one of the two patterns; reading %s without a `%r in %s` guard raises KeyError "
-                   "when the other pattern's match is chosen - an exception from_str does not catch" % (key, unparse(n), key, base))
+    # selection between the two matches, result shape and group handling: decided by interpreting the function on one
+    # representative input per case of its case analysis (both match at the same place / two-byte earlier / only one /
+    # none / parameters empty, numeric, malformed / text with newlines)
+    from ..fold import new_interp
+    it = new_interp(src)
+    ESC = "\x1b"
+    probes = [
+        ("both patterns match at the same position: the CSI match must win", ESC + "[31mX", ("", ESC + "[31m", "m", [31], "X")),
+        ("text in front and a newline in the rest", "ab" + ESC + "[1;31mX\ny", ("ab", ESC + "[1;31m", "m", [1, 31], "X\ny")),
+        ("newline in front of the sequence", "a\nb" + ESC + "[0mc", ("a\nb", ESC + "[0m", "m", [0], "c")),
+        ("a two-byte sequence earlier than a CSI: the earlier one is peeled first", "a" + ESC + "Ab" + ESC + "[1mc", ("a", ESC + "A", "A", None, "b" + ESC + "[1mc")),
+        ("no escape sequence at all", "plain\ttext\n", ("plain\ttext\n", None, None, None, "")),
+        ("empty parameter list", ESC + "[mZ", ("", ESC + "[m", "m", "", "Z")),
+        ("8-bit CSI", "q\x9b5Ax", ("q", "\x9b5A", "A", [5], "x")),
+        ("parameter list with a trailing separator stays a string", ESC + "[1;m", ("", ESC + "[1;m", "m", "1;", "")),
+        ("truncated CSI is a two-byte sequence", "x" + ESC + "[", ("x", ESC + "[", "[", None, "")),
+        ("carriage return and form feed are ordinary text", "a\rb\x0c" + ESC + "[4mc", ("a\rb\x0c", ESC + "[4m", "m", [4], "c")),
+    ]
+    for label, text, want in probes:
+        r = it.call1("escseqparse", "peel_off_esc_code", text)
+        if r[0] == "opaque":
+            raise AnalysisError("peel_off_esc_code outside the evaluated subset for %r: %s" % (text, r[1]))
+        got = None
+        if r[0] == "ok" and isinstance(r[1], tuple) and len(r[1]) == 3:
+            front, tok, rest = r[1]
+            if tok is None:
+                got = (front, None, None, None, rest)
+            elif isinstance(tok, dict):
+                got = (front, tok.get("seq"), tok.get("command"), tok.get("numbers"), rest)
+        rep.ob(prefix + "-tokenizer-case-analysis", f.where(), f.scope, "%s: %r" % (label, text), got == want,
+               "peel_off_esc_code(%r) gives %s; expected (front, seq, command, numbers, rest) = %s" % (text, got if got is not None else r, want),
+               witness={"input": text})
+        rep.case(True)
     counts["tokenizer_rules"] = 1
     return tm
 
 
+def _merge_updates(items):
+    """Consecutive update dicts are equivalent to their merge (later keys win); empty updates are no-ops."""
+    out = []
+    for x in items:
+        if isinstance(x, dict):
+            if out and isinstance(out[-1], dict):
+                out[-1] = dict(out[-1], **x)
+            else:
+                out.append(dict(x))
+        else:
+            out.append(x)
+    return [x for x in out if x != {}]
+
+
 def rules_parse_loop(src, rep, prefix):
+    """parse() alternates text and updates in order and tokenizes the WHOLE input: interpreted on representative inputs."""
+    from ..fold import new_interp
+    it = new_interp(src)
     f = src.func("escseqparse", "parse")
-    loops = [n for n in f.node.body if isinstance(n, ast.While)]
-    if len(loops) != 1:
-        raise AnalysisError("parse: expected one while loop")
-    lp = loops[0]
-    body = lp.body
-    # front, token, rest = peel_off_esc_code(rest)
-    first = body[0] if body else None
-    ok = isinstance(first, ast.Assign) and isinstance(first.targets[0], ast.Tuple) and len(first.targets[0].elts) == 3 and \
-        isinstance(first.value, ast.Call) and unparse(first.value.func) == "peel_off_esc_code" and len(first.value.args) == 1
-    if not ok:
-        raise AnalysisError("parse: loop does not start with `front, token, rest = peel_off_esc_code(rest)`")
-    fr, tok, rest = [unparse(x) for x in first.targets[0].elts]
-    rep.ob(prefix + "-rest-fed-back", f.where(first), f.scope, unparse(first), unparse(first.value.args[0]) == rest,
-           "the unprocessed remainder must be fed back into the tokenizer")
-    init = [s for s in f.node.body if isinstance(s, ast.Assign) and unparse(s.targets[0]) == rest]
-    rep.ob(prefix + "-starts-with-whole-input", f.where(init[0]) if init else f.where(), f.scope,
-           unparse(init[0]) if init else "<none>", len(init) == 1 and unparse(init[0].value) == f.params()[0],
-           "tokenizing must start from the whole input string")
-    # order: front appended before token handling
-    idx_front = idx_tok = None
-    acc = None
-    for i, s in enumerate(body):
-        if isinstance(s, ast.If) and unparse(s.test) == fr:
-            for x in s.body:
-                if isinstance(x, ast.Expr) and isinstance(x.value, ast.Call) and isinstance(x.value.func, ast.Attribute) and \
-                        x.value.func.attr == "append" and unparse(x.value.args[0]) == fr:
-                    idx_front = i
-                    acc = unparse(x.value.func.value)
-        if isinstance(s, ast.If) and unparse(s.test) == tok:
-            idx_tok = i
-    rep.ob(prefix + "-front-before-token", f.where(lp), f.scope, "if front: stuff.append(front) ... if token: ...",
-           idx_front is not None and idx_tok is not None and idx_front < idx_tok,
-           "text in front of a token must be appended before the token's updates (order of text and formatting)")
-    ext_ok = False
-    if idx_tok is not None and acc:
-        for x in ast.walk(body[idx_tok]):
-            if isinstance(x, ast.Call) and isinstance(x.func, ast.Attribute) and x.func.attr == "extend" and \
-                    unparse(x.func.value) == acc and x.args and isinstance(x.args[0], ast.Name):
-                # the extended value is token_type(token)
-                from ..cfg import single_defs
-                ext_ok = True
-    rep.ob(prefix + "-token-updates-in-order", f.where(lp), f.scope, "stuff.extend(token_type(token))", ext_ok,
-           "the updates of one token must be added in order to the same list as the text pieces")
-    # termination: `if not rest: break`
-    brk = [s for s in body if isinstance(s, ast.If) and unparse(s.test) == "not %s" % rest and
-           any(isinstance(x, ast.Break) for x in s.body)]
-    rep.ob(prefix + "-loop-until-rest-empty", f.where(lp), f.scope, "if not rest: break", len(brk) == 1 and body.index(brk[0]) > (idx_tok or 0),
-           "the loop must run until nothing is left, and test that after handling the current token")
-    rets = [n for n in f.own_nodes() if isinstance(n, ast.Return)]
-    rep.ob(prefix + "-returns-accumulator", f.where(), f.scope, "return %s" % acc, len(rets) == 1 and unparse(rets[0].value) == acc,
-           "parse must return the accumulated list")
+    ESC = "\x1b"
+    RESET = None
+    r0 = it.call1("escseqparse", "parse", ESC + "[0m")
+    if r0[0] != "ok" or not isinstance(r0[1], list) or len(r0[1]) != 1:
+        raise AnalysisError("parse(ESC[0m) does not give one update: %s" % (r0,))
+    RESET = r0[1][0]
+    probes = [
+        ("text, colour, text, reset, text", "a" + ESC + "[31mb" + ESC + "[0mc", ["a", {"fg": "red"}, "b", RESET, "c"]),
+        ("two sequences back to back", ESC + "[31m" + ESC + "[44mx", [{"fg": "red"}, {"bg": "blue"}, "x"]),
+        ("combined parameters keep their order", ESC + "[1;32mz", [{"bold": True}, {"fg": "green"}, "z"]),
+        ("text with newline, CR and other line boundaries is kept verbatim", "l1\r\nl2\x0c" + ESC + "[4mu\x85v\u2028w", ["l1\r\nl2\x0c", {"underline": True}, "u\x85v\u2028w"]),
+        ("cursor movement is dropped, text kept", "a" + ESC + "[2Ab" + ESC + "[Kc", ["a", "b", "c"]),
+        ("an 8-bit CSI after the last ESC is still tokenized", ESC + "[31ma\x9b32mb", [{"fg": "red"}, "a", {"fg": "green"}, "b"]),
+        ("an 8-bit CSI alone in the tail", "t\x9b1mu", ["t", {"bold": True}, "u"]),
+        ("no escape sequences", ">>> []", [">>> []"]),
+        ("empty input", "", []),
+        ("trailing sequence", "x" + ESC + "[39m", ["x", {"fg": None}]),
+    ]
+    for label, text, want in probes:
+        r = it.call1("escseqparse", "parse", text)
+        if r[0] == "opaque":
+            raise AnalysisError("parse outside the evaluated subset for %r: %s" % (text, r[1]))
+        got = r[1] if r[0] == "ok" else r
+        if r[0] == "ok" and isinstance(got, list):
+            got = _merge_updates(got)
+        want = _merge_updates(want)
+        rep.ob(prefix + "-parse-alternates-text-and-updates", f.where(), f.scope, "%s: %r" % (label, text), got == want,
+               "parse(%r) gives %s, expected %s: text pieces and updates must come out complete and in order" % (text, got, want),
+               witness={"input": text})
+        rep.case(True)
+    r = it.call1("escseqparse", "parse", "a" + ESC + "[90mb")
+    rep.ob(prefix + "-parse-unsupported-raises-ValueError", f.where(), f.scope, "parse('a ESC[90m b')", r == ("raise", "ValueError"),
+           "an unsupported SGR sequence must make parse() raise ValueError (so that from_str falls back); got %s" % (r,))
